@@ -206,7 +206,15 @@ func (s *SencBox) ParseReadBox(perSampleIVSize byte, saiz *SaizBox) error {
 			s.perSampleIVSize = perSampleIVSize
 		}
 
-		s.IVs = make([]InitializationVector, 0, s.SampleCount)
+		if uint64(perSampleIVSize)*uint64(s.SampleCount) > uint64(nrBytesLeft) {
+			return fmt.Errorf("senc: %d samples with perSampleIVSize %d do not fit in %d bytes",
+				s.SampleCount, perSampleIVSize, nrBytesLeft)
+		}
+		nrIVs := uint32(0) // No capacity needed if there are no IVs (sampleCount is not trusted)
+		if perSampleIVSize != 0 {
+			nrIVs = s.SampleCount
+		}
+		s.IVs = make([]InitializationVector, 0, nrIVs)
 		switch perSampleIVSize {
 		case 0:
 			// Nothing to do
